@@ -11,6 +11,8 @@ import (
 	"time"
 
 	"github.com/B1NARY-GR0UP/originium"
+	"github.com/B1NARY-GR0UP/originium/table"
+	"github.com/B1NARY-GR0UP/originium/wal"
 
 	"verifsim/simrt"
 )
@@ -176,6 +178,9 @@ func (c *crashRecorder) onFS(ev simrt.FSEvent) {
 		}
 	} else if phase == "commit" && ev.Op == os.VerifOpOpen {
 		phase = "rotation"
+	}
+	if os.Getenv("VERIF_DEBUG_FS") != "" {
+		fmt.Printf("fs %v+%d %s %s by %s(t%d) phase=%s\n", c.base, ev.Index, simrt.FSOpName(ev.Op), ev.Name, ev.Task.Name, ev.Task.ID, phase)
 	}
 	snap := r.ack.snap(r.c.Keys)
 	img := r.s.FS.Snapshot()
@@ -450,12 +455,31 @@ func RecoverImage(t *testing.T, parent *Case, img *CrashImage, seed uint64, nest
 	if r.crash != nil {
 		opt.OnFS = r.crash.onFS
 	}
+	if os.Getenv("VERIF_DEBUG") != "" {
+		fmt.Printf("--- image %v (dump taken outside the simulation)\n", img.Path)
+		for _, n := range img.Image.Names() {
+			fmt.Printf("    %s\n", n)
+			debugDumpFile(dir, n)
+		}
+	}
 	s := simrt.Run(t, opt, func(s *simrt.Sim) {
 		r.s = s
 		s.Sleep(img.At + time.Duration(gap))
 		r.phase = "recovery"
+		if os.Getenv("VERIF_DEBUG") != "" {
+			fmt.Printf("--- recovery of %v: crash at +%v, gap %v, now %v\n", img.Path, img.At, time.Duration(gap), time.Now().UTC().Format("20060102150405.000000000"))
+			for _, n := range img.Image.Names() {
+				fmt.Printf("    %s %d bytes (synced %d)\n", n, len(img.Image[n].Data), img.Image[n].Synced)
+			}
+		}
 		if !r.openDB(0) {
 			return
+		}
+		if os.Getenv("VERIF_DEBUG") != "" {
+			ents, _ := os.ReadDir(dir)
+			for _, e := range ents {
+				fmt.Printf("    after Open: %s\n", e.Name())
+			}
 		}
 		r.phase = ""
 		ok := r.guard("client-panic", func() {
@@ -582,4 +606,42 @@ func (r *Runner) checkTxnReads(rec *TxnRec, pre map[string][]mval, viol func(ora
 		}
 	}
 	_ = originium.ErrConflictTxn
+}
+
+
+// debugDumpFile prints the entries of a wal or table file (development aid).
+func debugDumpFile(dir, name string) {
+	defer func() { recover() }()
+	switch fileKind(name) {
+	case "wal":
+		w, err := wal.Open(dir + "/" + name)
+		if err != nil {
+			return
+		}
+		es, err := w.Read()
+		for _, e := range es {
+			fmt.Printf("        %s tomb=%v val=%.12q\n", e.Key, e.Tombstone, e.Value)
+		}
+		if err != nil {
+			fmt.Println("        read error:", err)
+		}
+		_ = w.Close()
+	case "l0", "ln":
+		b, _ := os.ReadFile(dir + "/" + name)
+		var f table.Footer
+		if len(b) < 40 || f.Decode(b[len(b)-40:]) != nil {
+			return
+		}
+		var ix table.Index
+		if ix.Decode(b[f.IndexBlock.Offset:f.IndexBlock.Offset+f.IndexBlock.Length]) != nil {
+			return
+		}
+		var d table.Data
+		if d.Decode(b[ix.DataBlock.Offset:ix.DataBlock.Offset+ix.DataBlock.Length]) != nil {
+			return
+		}
+		for _, e := range d.Entries {
+			fmt.Printf("        %s tomb=%v val=%.12q\n", e.Key, e.Tombstone, e.Value)
+		}
+	}
 }
